@@ -26,6 +26,30 @@ _harn = [
                             U(2, [0, 0, 1], DIR=1, ANY_AUTOMATON=None, VS_NO_PROPERTY=None), U(2, [0, 1, 2], DIR=1, ANY_AUTOMATON=None, VS_NO_PROPERTY=None, _time=1500)]},
    'selftest_config': U(2, [0, 1], DIR=1, ANY_AUTOMATON=None, VS_NO_PROPERTY=None), 'selftests': []},
 ]
+# the public entry points of the facades and of ExplicitLTS that no other harness calls (apicov.py), one per query (CALL,
+# see the table at the top of harness/C20/api_misc.cc); several registrations of the same source so that a query links
+# only the translation units its group needs
+def _api(calls, ranks=(0, 1), **kw): return [dict(U(2, list(ranks), CALL=k), **kw) for k in calls]
+_TIMBUK = ['timbuk_parser-nobison', 'timbuk_serializer']
+_API_BDD = ['bdd_bu_tree_aut', 'bdd_bu_tree_aut_core', 'bdd_td_tree_aut', 'bdd_td_tree_aut_core', 'symbolic_tree_aut_base_core', 'sym_var_asgn', 'symbolic', 'util', 'convert']
+# not registered (engine limitation, not a finding): CALL 6 (ExplicitTreeAut::ToString(const Transition&)) and CALL 50
+# (BDDBottomUpTreeAut::DumpToDot()) format through std::ostringstream, whose construction ends in libstdc++.so locale code
+# that has no IR (INCONCLUSIVE: value enumeration exceeds --max-enum ... in std::basic_ios::_M_cache_locale); CALL 43 does
+# not exist (the bottom-up facade declares no DumpToString(serializer, StateBackTranslStrict))
+_API_TREE = [2, 3, 5, 7, 8, 9, 10, 11, 12, 13, 14, 15, 16]
+_API_GROUPS = [
+  ('api_misc_tree', TREE_CORE + ['util', 'convert', 'symbolic'] + _TIMBUK, _api(_API_TREE) + _api(_API_TREE, (0, 2))),
+  ('api_misc_tree_algo', TREE_INCL, _api([0, 1, 4])),
+  ('api_misc_fa', ['explicit_finite_aut', 'explicit_finite_aut_core', 'util', 'convert', 'symbolic'] + _TIMBUK, _api([22, 23, 24, 25, 26, 27, 28, 29, 30, 31, 32])),
+  ('api_misc_fa_incl', ['explicit_finite_aut', 'explicit_finite_aut_core', 'explicit_finite_incl', 'explicit_finite_union', 'explicit_finite_useless', 'explicit_finite_unreach', 'explicit_finite_reverse', 'incl_param', 'aut_base', 'util', 'convert'], _api([20, 21])),
+  ('api_misc_bdd', _API_BDD + _TIMBUK, _api([40, 41, 42, 44, 45, 46, 47, 48, 49, 51, 60, 61, 62, 63, 64, 65, 66, 67, 68])),
+  ('api_misc_bdd_incl', _API_BDD + ['bdd_bu_tree_aut_union', 'bdd_bu_tree_aut_union_disj', 'bdd_bu_tree_aut_isect', 'bdd_bu_tree_aut_unreach', 'bdd_bu_tree_aut_useless',
+                                    'bdd_td_tree_aut_union', 'bdd_td_tree_aut_union_disj', 'bdd_td_tree_aut_isect', 'bdd_td_tree_aut_unreach', 'bdd_td_tree_aut_useless',
+                                    'bdd_bu_tree_aut_incl', 'bdd_td_tree_aut_incl', 'bdd_bu_tree_aut_sim', 'bdd_td_tree_aut_sim', 'aut_base', 'incl_param'] + _TIMBUK, _api([52, 53, 54])),
+  ('api_misc_lts', ['explicit_lts_sim', 'util'], _api([80])),
+]
+for _n, _t, _c in _API_GROUPS:
+    _harn.append({'name': _n, 'src': 'harness/C20/api_misc.cc', 'tus': _t, 'configs': {'quick': _c}, 'selftest_config': _c[0], 'selftests': ['VS_SELFTEST_1']})
 import json as _json
 _claimed = set(k for k, v in _json.load(open(os.path.join(os.path.dirname(_here), 'claims.json'))).items() if v.get('claimed'))
 _covered = []
